@@ -225,9 +225,9 @@ META["C14"]["rule"] += " Source kinds: scripted source under std read_exact, Buf
 META["C19"]["rule"] += " The provided methods read_exact / write_all / read_to_end are in the alphabet (compared on success; state after a failed read_exact is unspecified by std and re-synchronised; an empty write_all is not executed); one history in sixteen has up to 400 operations."
 META["C12"]["rule"] += " No fault-free control is required: residue 0 is judged like every other; the value of an Ok result is compared with the read at a page-aligned address when that read succeeds."
 META["C10"]["rule"] += " Each path is judged against its own fault-free reference (full-copy / ε-copy); a path without one is skipped and counted."
-DOC_ASSUMPTIONS[0] = DOC_ASSUMPTIONS[0].replace("~68", "84")
+DOC_ASSUMPTIONS[0] = DOC_ASSUMPTIONS[0].replace("~68", "97")
 for _p in ("C10", "C11", "C12", "C14", "C15"):
-    META[_p]["assumptions"] = [a.replace("~68", "84") for a in META[_p]["assumptions"]]
+    META[_p]["assumptions"] = [a.replace("~68", "97") for a in META[_p]["assumptions"]]
 META["C11"]["assumptions"] = [a for a in META["C11"]["assumptions"] if not a.startswith("a (document, value) whose fault-free controls")] + ["no fault-free read is needed: only serialization must succeed"]
 META["C12"]["assumptions"] = [a for a in META["C12"]["assumptions"] if not a.startswith("a (document, value) whose fault-free controls")] + ["no fault-free read is needed: only serialization must succeed"]
 META["C14"]["assumptions"] = [a.replace("(serialize, full-copy read, ε-copy read at an aligned address, agreement of the two)", "(serialize, unfragmented full-copy read)") for a in META["C14"]["assumptions"]]
